@@ -7,6 +7,20 @@
 //! every accepted in-bounds datagram delivered exactly once for in-order frames). A second part
 //! captures the fragments of a datagram and feeds every permutation (+ one duplicate) to a fresh
 //! receiver. See `lowpan/scen.rs` for the oracles and `lowpan/world.rs` for the plumbing.
+//!
+//! Parts (scenario `part`):
+//!  * `udp`     one datagram per exchange: address classes x port pairs x hop limits x every length
+//!              (up to and past the largest the fragmentation buffer admits), hardware address
+//!              kinds, PAN/no PAN, device MTU, transmit-buffer pre-fill patterns;
+//!  * `b2b`     two datagrams queued on ONE socket before the same poll;
+//!  * `twosock` two sockets of the sending interface (UDP + second UDP socket, or UDP + ICMP
+//!              socket) each queue one datagram before the same poll: both must be reproduced;
+//!  * `seq`     datagram 1, quiescence, datagram 2 on the same interfaces (stale state);
+//!  * `hwchg`   Interface::set_hardware_addr on the sender while fragments are pending;
+//!  * `ingress` the sender receives an echo request / UDP to a closed port (from the peer or a third
+//!              node) while its own fragments are pending;
+//!  * `perm`    every order (+ one duplicate) of the fragments of a datagram on a fresh receiver;
+//!  * `icmp`    echo request/reply through ICMP sockets; `tcp` a short connection; `mld` group join.
 
 mod scen;
 mod world;
@@ -78,6 +92,7 @@ struct Plan {
     seq: Vec<Scn>,
     hwchg: Vec<Scn>,
     ingress: Vec<Scn>,
+    twosock: Vec<Scn>,
     perm: Vec<Scn>,
     icmp: Vec<Scn>,
     tcp: Vec<Scn>,
@@ -346,6 +361,53 @@ fn plan(tier: Tier) -> Plan {
         }
     }
 
+    // two sockets of the sending interface, one datagram each, queued before the same poll
+    let mut twosock: Vec<Scn> = vec![];
+    {
+        let pairs: Vec<(HwKind, AddrClass, AddrClass)> = if thorough {
+            let mut v: Vec<_> = addr_pairs_ext().into_iter().map(|(s, d)| (HwKind::Ext, s, d)).collect();
+            v.push((HwKind::Short, AddrClass::LlHw, AddrClass::McAllNodes));
+            v.push((HwKind::Short, AddrClass::LlHw, AddrClass::LlHw));
+            v
+        } else {
+            vec![
+                (HwKind::Ext, AddrClass::LlHw, AddrClass::LlHw),
+                (HwKind::Ext, AddrClass::Global, AddrClass::Global),
+                (HwKind::Ext, AddrClass::Ll16, AddrClass::Ll64),
+                (HwKind::Ext, AddrClass::LlHw, AddrClass::McAllNodes),
+                (HwKind::Ext, AddrClass::Ctx, AddrClass::McK(12)),
+                (HwKind::Short, AddrClass::LlHw, AddrClass::McAllNodes),
+            ]
+        };
+        for (sh, src, dst) in pairs {
+            for (sp, dp) in [(1234u16, 1234u16), (0xf012, 0xf0b7)] {
+                for kind in [0u8, 1] {
+                    for per in [false, true] {
+                        for c1 in 0..3 {
+                            for c2 in 0..3 {
+                                let mut j = Scn::base("twosock");
+                                j.s_hw = sh;
+                                j.src = src;
+                                j.dst = dst;
+                                j.sport = sp;
+                                j.dport = dp;
+                                j.stim_kind = kind;
+                                j.one_per_poll = per;
+                                j.lens = vec![size_class_lens(sh, HwKind::Ext, &j.main_dg(0))[c1]];
+                                let mut f = Dgp { src, dst, sport: if sp == 1234 { SPORT2 } else { 0xf013 }, dport: dp, hl: 64, len: 0 };
+                                f.len = size_class_lens(sh, HwKind::Ext, &f)[c2];
+                                j.first = Some(f);
+                                if j.feasible() {
+                                    twosock.push(j);
+                                }
+                            }
+                        }
+                    }
+                }
+            }
+        }
+    }
+
     // back to back
     let b2b_sizes: Vec<usize> = if thorough { vec![0, 8, 60, 100, 150, 200, 300, 600, 1200] } else { vec![8, 100, 200, 600] };
     let b2b_pairs: Vec<(HwKind, AddrClass, AddrClass)> = if thorough {
@@ -497,12 +559,13 @@ fn plan(tier: Tier) -> Plan {
             "transitions": ["ext->ext", "ext->short", "short->ext"], "device": ["unlimited", "one frame per poll"], "sizes": "3 frames, 600, largest the fragmentation buffer admits (thorough: + 2 frames, 300, 1000)"},
         "ingress": {"scenarios": ingress.len(), "what": "S starts a fragmented datagram; after 1..k rounds, while fragments are pending, it receives an echo request / a UDP datagram to a closed port (payload 60..1000) from the peer or from a third node (captured frames incl. its neighbor solicitation); the automatic reply may need fragmentation itself",
             "device": ["one frame per poll", "unlimited", "each also fully blocked for 16 rounds while the stimulus arrives"], "sizes of S's datagram": "3 frames, 600, 1200 (thorough: + 300, 900, largest)"},
+        "twosock": {"scenarios": twosock.len(), "what": "two sockets of the sending interface each queue one datagram before the same poll: UDP socket 1 (first in the SocketSet) + a second UDP socket (other local port) or the ICMP socket (echo request); size classes {1 frame, 2 frames, 3 frames}^2; device unlimited / one frame per poll; both must be reproduced at the receiver, in any order"},
         "b2b": {"scenarios": b2b.len(), "sizes (each of two datagrams)": b2b_sizes, "address pairs": b2b_pairs.len(), "port pairs": b2b_ports.len()},
         "perm": {"captures": perm.len(), "address pairs": perm_pairs.len(), "port pairs": perm_ports.len(), "sequences": "n!: 2/6/24 permutations; n<=3: + every permutation with one fragment inserted a second time at any position (6 resp. 36 distinct sequences more)"},
         "icmp": {"scenarios": icmp.len(), "address configs": UNICAST_CLASSES.len() * icmp_dsts.len(), "hop limits": HOP_LIMITS},
         "tcp": {"scenarios": tcp.len(), "bytes each way": tcp_n, "address pairs": tcp_pairs.len(), "device mtu": [1500, 125], "hop limits": tcp_hl},
     });
-    Plan { udp, b2b, seq, hwchg, ingress, perm, icmp, tcp, dims }
+    Plan { udp, b2b, seq, hwchg, ingress, twosock, perm, icmp, tcp, dims }
 }
 
 fn run_one(scn: &Scn, acc: &mut Acc) {
@@ -511,6 +574,7 @@ fn run_one(scn: &Scn, acc: &mut Acc) {
         "b2b" | "seq" => run_b2b(scn, acc),
         "hwchg" => run_hwchg(scn, acc),
         "ingress" => run_ingress(scn, acc),
+        "twosock" => run_twosock(scn, acc),
         "icmp" => run_icmp(scn, acc),
         "tcp" => run_tcp(scn, acc),
         "mld" => run_mld(acc),
@@ -605,7 +669,7 @@ fn finalize(sig: &str, scn: &Scn, _detail: &str) -> Result<(String, Scn, String)
         }
     }
     fn variants(orig: &Scn, t: Scn) -> Vec<Scn> {
-        if orig.part == "seq" && t.part == "seq" && orig.lens.len() == 1 {
+        if matches!(orig.part.as_str(), "seq" | "twosock") && t.part == orig.part && orig.lens.len() == 1 {
             let (Some(of), Some(tf)) = (&orig.first, &t.first) else { return vec![t] };
             let c1 = class_idx(orig.s_hw, orig.r_hw, of);
             let c2 = class_idx(orig.s_hw, orig.r_hw, &orig.main_dg(orig.lens[0]));
@@ -642,11 +706,11 @@ fn finalize(sig: &str, scn: &Scn, _detail: &str) -> Result<(String, Scn, String)
         })
     }
     let mut steps: Vec<Step> = vec![];
-    if scn.part == "seq" {
+    if scn.part == "seq" || scn.part == "twosock" {
         // the second datagram alone / the first datagram alone
-        steps.push(Box::new(|s| if s.part == "seq" { vec![Scn { part: "udp".into(), first: None, ..s.clone() }] } else { vec![] }));
+        steps.push(Box::new(|s| if s.part == "seq" || s.part == "twosock" { vec![Scn { part: "udp".into(), first: None, stim_kind: 0, one_per_poll: false, ..s.clone() }] } else { vec![] }));
         steps.push(Box::new(|s| match &s.first {
-            Some(f) if s.part == "seq" => vec![Scn { part: "udp".into(), first: None, src: f.src, dst: f.dst, sport: f.sport, dport: f.dport, hl: f.hl, lens: vec![f.len], ..s.clone() }],
+            Some(f) if s.part == "seq" || (s.part == "twosock" && s.stim_kind != 1) => vec![Scn { part: "udp".into(), first: None, stim_kind: 0, one_per_poll: false, src: f.src, dst: f.dst, sport: f.sport, dport: f.dport, hl: f.hl, lens: vec![f.len], ..s.clone() }],
             _ => vec![],
         }));
     }
@@ -738,9 +802,17 @@ fn finalize(sig: &str, scn: &Scn, _detail: &str) -> Result<(String, Scn, String)
             }
         }));
     }
-    if scn.part == "seq" {
+    if scn.part == "seq" || scn.part == "twosock" {
+        if scn.part == "twosock" {
+            steps.push(dim(|t| t.one_per_poll = false));
+            steps.push(dim(|t| {
+                if t.part == "twosock" {
+                    t.stim_kind = 0
+                }
+            }));
+        }
         fn on_first(t: &mut Scn, g: fn(&mut Dgp)) {
-            if t.part == "seq" {
+            if t.part == "seq" || t.part == "twosock" {
                 if let Some(f) = t.first.as_mut() {
                     g(f)
                 }
@@ -757,16 +829,20 @@ fn finalize(sig: &str, scn: &Scn, _detail: &str) -> Result<(String, Scn, String)
         }));
         steps.push(dim(|t| on_first(t, |f| f.hl = 64)));
         steps.push(dim(|t| {
+            let tw = t.part == "twosock";
             on_first(t, |f| {
                 f.sport = 1234;
                 f.dport = 1234;
-            })
+            });
+            if tw {
+                on_first(t, |f| f.sport = SPORT2);
+            }
         }));
         // smaller size classes, first then second datagram
         for c in [0usize, 1] {
             steps.push(Box::new(move |s| {
                 let mut t = s.clone();
-                if let (Some(f), true) = (t.first.as_mut(), s.part == "seq") {
+                if let (Some(f), true) = (t.first.as_mut(), s.part == "seq" || s.part == "twosock") {
                     let l = size_class_lens(s.s_hw, s.r_hw, f)[c];
                     if l < f.len {
                         f.len = l;
@@ -778,7 +854,7 @@ fn finalize(sig: &str, scn: &Scn, _detail: &str) -> Result<(String, Scn, String)
         }
         for c in [0usize, 1] {
             steps.push(Box::new(move |s| {
-                if s.part != "seq" || s.lens.len() != 1 {
+                if !(s.part == "seq" || s.part == "twosock") || s.lens.len() != 1 {
                     return vec![];
                 }
                 let l = size_class_lens(s.s_hw, s.r_hw, &s.main_dg(s.lens[0]))[c];
@@ -833,6 +909,7 @@ pub fn run(tier: Tier) -> i32 {
         smoltcp::config::FRAGMENTATION_BUFFER_SIZE,
         smoltcp::config::REASSEMBLY_BUFFER_SIZE
     ));
+    rep.assumptions.push("order BETWEEN different datagrams (same socket, two sockets, a small datagram overtaking the fragments of a large one) is not demanded: the property is per datagram; a datagram a socket has dequeued must arrive exactly once".into());
     rep.assumptions.push("fragment-order part: delivery demanded only when FRAG1 arrives first (lenient reading of 'any order the reassembler can track'); every order must be safe (the original datagram at most once, or nothing)".into());
     rep.assumptions.push("neighbors are resolved by the real NS/NA exchange before each scenario (warm-up datagrams on separate sockets); a node with a SHORT hardware address cannot be resolved (NDISC link-layer option must be 8 octets) so it only sends to multicast or to a neighbor that solicited it".into());
     rep.assumptions.push(format!("each node owns its hardware-derived link-local address plus at most IFACE_MAX_ADDR_COUNT-1 = {} more; sequence scenarios needing more distinct unicast classes on one node are skipped in this build variant", smoltcp::config::IFACE_MAX_ADDR_COUNT - 1));
@@ -893,6 +970,7 @@ pub fn run(tier: Tier) -> i32 {
     total.merge(par_run(&p.seq, 16, |s, a| run_b2b(s, a)));
     total.merge(par_run(&p.hwchg, 16, |s, a| run_hwchg(s, a)));
     total.merge(par_run(&p.ingress, 16, |s, a| run_ingress(s, a)));
+    total.merge(par_run(&p.twosock, 16, |s, a| run_twosock(s, a)));
     let t_seq = rep.t0.elapsed().as_secs_f64();
     total.merge(par_run(&p.perm, 8, |s, a| run_perm(s, a)));
     let t_perm = rep.t0.elapsed().as_secs_f64();
